@@ -40,6 +40,7 @@ CONFIGS = {
     "inflcov": ("cl0", ["MON_INFLIGHT", "MON_CLIENT=1", "MON_VARIANT=4"]),
     "covmif": ("cl0", ["MON_CLIENT=1", "MON_MUSTIF", "MON_VARIANT=1"]),     # coverage<> around a control whose failure() raises
     "treemif": ("cl0", ["MON_TREE", "MON_MUSTIF", "MON_VARIANT=0", "MON_SELV=1"]),   # parse_tree around such a control
+    "gana": ("plain", ["MON_ANA", "MON_VARIANT=0"]),   # the same with g++ (demangle.hpp has one code path per compiler)
     "ana": ("cl0", ["MON_ANA", "MON_VARIANT=0"]),      # analyze< G >() + fuel-limited monitored run on reference loop witnesses (C11)
     "lazy1": ("cl0", ["MON_VARIANT=1", "MON_LAZY=1"]),
     "lazy3": ("cl0", ["MON_VARIANT=3", "MON_LAZY=1"]),
@@ -73,6 +74,7 @@ SIZES = {
     "tree": (60, 240),
     "state": (100, 400),
     "cyc": (900, 0),
+    "cycn": (28, 28),
     "buf": (100, 300),
     "contrib": (60, 240),
     "atoms": (42, 210),
